@@ -27,53 +27,56 @@ type cli struct {
 var retransOp = &OpRec{Idx: -1, Done: true, Inv: 0, Op: &Op{K: "retransmit"}}
 
 type outPkt struct {
-	at    time.Time
-	seq   int
-	b     []byte
-	off   int
-	pkt   *mqttc.Packet
-	op    *OpRec
-	close string // "fin"/"rst": close the connection instead of sending
-	first bool
+	at          time.Time
+	seq         int
+	b           []byte
+	off         int
+	pkt         *mqttc.Packet
+	op          *OpRec
+	close       string // "fin"/"rst": close the connection instead of sending
+	first       bool
 	onDelivered func() // zero-length marker: called when everything before it was delivered
 }
 
 // cconn is the simulator side of one connection.
 type cconn struct {
-	id      int
-	name    string
-	cli     *cli
-	c       *simnet.Conn
-	node    int
-	ver     byte
-	parser  mqttc.Parser
-	sendq   []*outPkt
-	sendSeq int
-	dead    bool // fully finished: both sides closed and drained
-	bclosed bool // broker closed
-	bcloseStep int
-	cclosed bool // client closed
-	ackMode string
-	ackDelay time.Duration
-	connectOp *OpRec
-	connack *mqttc.Packet
-	connackStep int
-	awaiting map[string]*OpRec // "t<type>:<pid>" -> op waiting for that ack
-	pings   []*OpRec
-	reauths []*OpRec
+	id           int
+	name         string
+	cli          *cli
+	c            *simnet.Conn
+	node         int
+	ver          byte
+	parser       mqttc.Parser
+	sendq        []*outPkt
+	sendSeq      int
+	dead         bool // fully finished: both sides closed and drained
+	bclosed      bool // broker closed
+	bcloseStep   int
+	cclosed      bool // client closed
+	ackMode      string
+	ackDelay     time.Duration
+	connectOp    *OpRec
+	connack      *mqttc.Packet
+	connackStep  int
+	awaiting     map[string]*OpRec // "t<type>:<pid>" -> op waiting for that ack
+	pings        []*OpRec
+	reauths      []*OpRec
 	closeWaiters []*OpRec
-	heldRel map[uint16]bool
-	heldAcks []*mqttc.Packet
-	garbage bool
-	Transport string
-	ws      *wsClient
-	RxBytes int64
-	TxBytes int64
+	heldRel      map[uint16]bool
+	heldAcks     []*mqttc.Packet
+	garbage      bool
+	Transport    string
+	ws           *wsClient
+	RxBytes      int64
+	TxBytes      int64
 }
 
+//go:norace
 func key(t byte, pid uint16) string { return fmt.Sprintf("%d:%d", t, pid) }
 
 // Conn returns the connection records (for oracles).
+//
+//go:norace
 func (w *World) ConnCount() int { return len(w.conns) }
 
 // ConnInfo describes a connection for oracles.
@@ -90,6 +93,8 @@ type ConnInfo struct {
 }
 
 // Conns lists all connections of the run.
+//
+//go:norace
 func (w *World) Conns() []ConnInfo {
 	var r []ConnInfo
 	for _, c := range w.conns {
@@ -102,6 +107,7 @@ func (w *World) Conns() []ConnInfo {
 	return r
 }
 
+//go:norace
 func (w *World) latency() time.Duration {
 	n := w.Plan.Net
 	lo, hi := n.LatMinUs, n.LatMaxUs
@@ -112,6 +118,8 @@ func (w *World) latency() time.Duration {
 }
 
 // send queues a packet for delivery to the broker.
+//
+//go:norace
 func (c *cconn) send(w *World, p *mqttc.Packet, op *OpRec, extra time.Duration) {
 	if c.cclosed {
 		return
@@ -120,6 +128,7 @@ func (c *cconn) send(w *World, p *mqttc.Packet, op *OpRec, extra time.Duration) 
 	c.sendRaw(w, b, p, op, extra)
 }
 
+//go:norace
 func (c *cconn) sendRaw(w *World, b []byte, p *mqttc.Packet, op *OpRec, extra time.Duration) {
 	if c.ws != nil && !c.ws.upgraded {
 		// a WebSocket client sends no frame before it has seen the 101 response
@@ -148,6 +157,7 @@ func (c *cconn) sendRaw(w *World, b []byte, p *mqttc.Packet, op *OpRec, extra ti
 	c.insert(e)
 }
 
+//go:norace
 func (c *cconn) insert(e *outPkt) {
 	i := len(c.sendq)
 	for i > 0 && c.sendq[i-1].at.After(e.at) && c.sendq[i-1].off == 0 {
@@ -158,6 +168,7 @@ func (c *cconn) insert(e *outPkt) {
 	c.sendq[i] = e
 }
 
+//go:norace
 func (c *cconn) closeAfterSend(w *World, mode string) {
 	c.sendSeq++
 	at := time.Now().Add(w.latency())
@@ -168,6 +179,8 @@ func (c *cconn) closeAfterSend(w *World, mode string) {
 }
 
 // deliverNext moves the next chunk of the head packet (or a close) to the broker side.
+//
+//go:norace
 func (c *cconn) deliverNext(w *World) {
 	if len(c.sendq) == 0 {
 		return
@@ -244,6 +257,7 @@ func (c *cconn) deliverNext(w *World) {
 	c.c.Deliver(buf)
 }
 
+//go:norace
 func opIdx(o *OpRec) int {
 	if o == nil {
 		return -1
@@ -251,6 +265,7 @@ func opIdx(o *OpRec) int {
 	return o.Idx
 }
 
+//go:norace
 func (c *cconn) cliIdx() int {
 	if c.cli == nil {
 		return -1
@@ -258,6 +273,7 @@ func (c *cconn) cliIdx() int {
 	return c.cli.idx
 }
 
+//go:norace
 func (c *cconn) clientClose(w *World, mode string) {
 	if c.cclosed {
 		return
@@ -274,6 +290,7 @@ func (c *cconn) clientClose(w *World, mode string) {
 	c.failPending(w, "closed")
 }
 
+//go:norace
 func (c *cconn) failPending(w *World, why string) {
 	// deterministic order: by op index
 	var ops []*OpRec
@@ -294,6 +311,7 @@ func (c *cconn) failPending(w *World, why string) {
 	}
 }
 
+//go:norace
 func sortOps(ops []*OpRec) {
 	for i := 1; i < len(ops); i++ {
 		for j := i; j > 0 && ops[j-1].Idx > ops[j].Idx; j-- {
@@ -303,6 +321,8 @@ func sortOps(ops []*OpRec) {
 }
 
 // drain consumes what the broker wrote and feeds the client state machine.
+//
+//go:norace
 func (c *cconn) drain(w *World) {
 	segs := c.c.TakeSegs()
 	for _, sg := range segs {
@@ -361,6 +381,7 @@ func (c *cconn) drain(w *World) {
 	}
 }
 
+//go:norace
 func (c *cconn) ackLater(w *World, p *mqttc.Packet) {
 	switch c.ackMode {
 	case "never":
@@ -378,6 +399,8 @@ func (c *cconn) ackLater(w *World, p *mqttc.Packet) {
 }
 
 // onPacket is the scripted client's reaction to a packet from the broker.
+//
+//go:norace
 func (c *cconn) onPacket(w *World, p *mqttc.Packet, step int) {
 	switch p.Type {
 	case mqttc.CONNACK:
@@ -495,6 +518,7 @@ func (c *cconn) onPacket(w *World, p *mqttc.Packet, step int) {
 	}
 }
 
+//go:norace
 func (cl *cli) allocPID() uint16 {
 	p := cl.nextPID
 	cl.nextPID++
@@ -504,6 +528,7 @@ func (cl *cli) allocPID() uint16 {
 	return p
 }
 
+//go:norace
 func pubProps(op *Op) *mqttc.Props {
 	pr := &mqttc.Props{}
 	pr.MessageExpiry = op.MsgExpiry
@@ -520,6 +545,8 @@ func pubProps(op *Op) *mqttc.Props {
 }
 
 // PayloadOf returns the payload bytes a publish op sends.
+//
+//go:norace
 func PayloadOf(op *Op) []byte {
 	b := []byte(op.Payload)
 	for len(b) < op.PadTo {
@@ -529,6 +556,8 @@ func PayloadOf(op *Op) []byte {
 }
 
 // issue starts one operation.
+//
+//go:norace
 func (w *World) issue(o *OpRec) {
 	op := o.Op
 	if op.C < 0 {
@@ -742,6 +771,8 @@ func (w *World) issue(o *OpRec) {
 }
 
 // markDelivered completes o when everything queued so far on c has been delivered.
+//
+//go:norace
 func (c *cconn) markDelivered(w *World, o *OpRec) {
 	c.sendSeq++
 	at := time.Now()
@@ -758,6 +789,8 @@ func (c *cconn) markDelivered(w *World, o *OpRec) {
 }
 
 // dropQueue discards everything not yet delivered (the connection is gone).
+//
+//go:norace
 func (c *cconn) dropQueue(w *World) {
 	q := c.sendq
 	c.sendq = nil
@@ -768,6 +801,7 @@ func (c *cconn) dropQueue(w *World) {
 	}
 }
 
+//go:norace
 func (w *World) connect(cl *cli, o *OpRec) {
 	op := o.Op
 	ver := cl.spec.Ver
@@ -867,15 +901,16 @@ type APIResult struct {
 
 // SubView is a subscription as the broker reports it.
 type SubView struct {
-	Client string
-	Share  string
-	Filter string
-	QoS    byte
+	Client       string
+	Share        string
+	Filter       string
+	QoS          byte
 	NoLocal, RAP bool
-	RH     byte
-	ID     uint32
+	RH           byte
+	ID           uint32
 }
 
+//go:norace
 func toSubs(ss []mqttc.Sub, id uint32) []*gmqtt.Subscription {
 	var r []*gmqtt.Subscription
 	for _, s := range ss {
@@ -886,6 +921,8 @@ func toSubs(ss []mqttc.Sub, id uint32) []*gmqtt.Subscription {
 }
 
 // SplitShare splits "$share/<group>/<filter>" into group and filter.
+//
+//go:norace
 func SplitShare(f string) (share, filter string) {
 	if strings.HasPrefix(f, "$share/") {
 		rest := f[len("$share/"):]
@@ -896,6 +933,7 @@ func SplitShare(f string) (share, filter string) {
 	return "", f
 }
 
+//go:norace
 func (w *World) issueAPI(o *OpRec) {
 	op := o.Op
 	if op.K == "sleep" {
@@ -930,7 +968,7 @@ func (w *World) issueAPI(o *OpRec) {
 	}
 	w.apiBusy++
 	w.Faults["api.concurrent_call"]++
-	w.S.Go("api:"+op.K, func() {
+	w.S.Go("api:"+op.K, w.caller(func() {
 		o.Inv = w.S.StepCnt
 		o.InvT = w.Now()
 		w.rec(&Rec{Kind: "api_inv", C: op.C, Conn: -1, Op: o.Idx, Note: op.K})
@@ -977,5 +1015,5 @@ func (w *World) issueAPI(o *OpRec) {
 		w.rec(&Rec{Kind: "api_ret", C: op.C, Conn: -1, Op: o.Idx, Note: op.K, Val: res})
 		w.apiBusy--
 		w.complete(o, w.S.StepCnt)
-	})
+	}))
 }
